@@ -269,3 +269,21 @@ _patch("C12", "text", "compared with the extracted model;",
 _patch("C04", "text", "judged by the extracted c04_ok spec.",
        "judged by the extracted c04_ok spec; every third storm on two listen addresses, one in twelve starting with a hold of every slot for "
        "longer than any duration constant found in proxy/*.go while a TCP connection and a datagram wait.")
+_patch("C15", "text", "after bursts of 2-16 simultaneous responses with that value. Not provable here:",
+       "after bursts of 2-16 simultaneous responses with that value. Check-then-act: in every reachable state, while a plain read of x by one "
+       "thread is in force (made under locks it has not released since) no other thread is about to write x (C15_rmw_exclusive), and a path "
+       "that passes the syntactic rule `recheck` writes a location it has read before only while such a read is in force "
+       "(C15_recheck_meaning); the translator emits every method body as a frame of its own and C15_frames_ok evaluates the rule on them. "
+       "Not provable here:")
+_patch("C04", "text", "while a TCP connection and a datagram wait.",
+       "while a TCP connection and a datagram wait, one in twelve against the real resolver stack (endpoint manager, plain-DNS endpoint over a "
+       "UDP socket) with queries failing while an endpoint test is running.")
+_patch("C05", "text", "on loopback UDP+TCP over the boundary lattice and random pairs",
+       "on loopback UDP+TCP over the boundary lattice and random pairs (once with a scripted upstream, once through the real plain-DNS resolver)")
+_patch("C08", "text", "The manager's constants",
+       "A second engine uses real DoH endpoints (three servers, one host name and certificate, endpoints differing in the bootstrap address "
+       "only): elections must announce spec_best and every query must be received by the elected endpoint's own server. The manager's constants")
+_patch("C17", "text", "Tie:", "Tie (besides the in-process round trip below, the real binary: a configuration stored with `nextdns config set` is what the "
+       "daemon started as a service runs on - it listens on the stored address and uses the stored forwarder, also after one more option is set):")
+_patch("C19", "text", "Tie:", "Tie (besides the crash-injection engine below, the real daemon: `nextdns run -auto-activate` through stop, kill + restart + stop and "
+       "stop + restart + stop in a scratch /etc - the original is on disk while active and back byte for byte at the end):")
